@@ -2,7 +2,7 @@
     Only statements closed by [exact], their assumptions, and non-vacuity examples.
     Part I (over Q, list, nat) must be closed under the global context.
     Part II (over R, Coquelicot) may depend on the standard library's classical axioms for the reals. *)
-From SKN Require Import Base.Util Model.Gnn Proofs.GnnProofs Proofs.GnnCalculus.
+From SKN Require Import Base.Util Model.Gnn Model.NpExpr Gen.NpGnn Proofs.GnnProofs Proofs.GnnCalculus Proofs.NpExprProofs.
 Set Warnings "-notation-overridden,-ambiguous-paths".
 From Coq Require Import QArith Reals Morphisms Lra.
 From Coquelicot Require Import Coquelicot.
@@ -182,6 +182,103 @@ Theorem bce_grad_multi_legacy_refuted (eps : R) :
     ~ is_derive (fun t => r_bce_loss_row eps (upd x k t) y) (nth k x 0) (nth k (r_bce_gradient_legacy x y) 0).
 Proof. exact (GnnCalculus.bce_grad_multi_legacy_refuted eps). Qed.
 Print Assumptions bce_grad_multi_legacy_refuted.
+
+(* =========================================================================================== *)
+(** * Part III — the same statements about the terms REGENERATED FROM THE PYTHON SOURCE
+
+    [src_*] (Gen/NpGnn.v) are the bodies of the static methods of sknetwork/gnn/activation.py and loss.py translated
+    on every run into the array-expression language of Model/NpExpr.v; [rdenote] is that language's NumPy semantics
+    over R.  Each theorem evaluates the source terms on ARBITRARY input arrays and states the property about the
+    result: the denotation of the gradient method is the derivative of (the denotation of) the output / loss method. *)
+Local Open Scope R_scope.
+
+Theorem source_relu_gradient_is_derivative (S D : list (list R)) (n k i j : nat) :
+  ent S i j <> 0 ->
+  exists fo fg,
+    rdenote (env_s S n k) src_relu_output = Some (VM n k fo) /\
+    rdenote (env_sd S D n k) src_relu_gradient = Some (VM n k fg) /\
+    fo i j = r_relu (ent S i j) /\
+    is_derive (fun t => r_relu t * ent D i j) (ent S i j) (fg i j).
+Proof. exact (NpExprProofs.source_relu_gradient_is_derivative S D n k i j). Qed.
+Print Assumptions source_relu_gradient_is_derivative.
+
+Theorem source_sigmoid_gradient_is_derivative (S D : list (list R)) (n k i j : nat) :
+  exists fo fg,
+    rdenote (env_s S n k) src_sigmoid_output = Some (VM n k fo) /\
+    rdenote (env_sd S D n k) src_sigmoid_gradient = Some (VM n k fg) /\
+    fo i j = r_sigmoid (ent S i j) /\
+    is_derive (fun t => r_sigmoid t * ent D i j) (ent S i j) (fg i j).
+Proof. exact (NpExprProofs.source_sigmoid_gradient_is_derivative S D n k i j). Qed.
+Print Assumptions source_sigmoid_gradient_is_derivative.
+
+(** Softmax.output: every row is the softmax of the signal row and sums to 1. *)
+Theorem source_softmax_output_rows (S : list (list R)) (n k : nat) :
+  rect n k S -> (0 < k)%nat ->
+  exists fo, rdenote (env_s S n k) src_softmax_output = Some (VM n k fo) /\
+    forall i, (i < n)%nat ->
+      (forall j, (j < k)%nat -> fo i j = nth j (r_softmax_row (nth i S nil)) 0) /\
+      r_sum (r_softmax_row (nth i S nil)) = 1.
+Proof. exact (NpExprProofs.source_softmax_output_rows S n k). Qed.
+Print Assumptions source_softmax_output_rows.
+
+(** Softmax.gradient(signal, direction)[i][j] = d/d signal[i][j] <softmax(signal[i]), direction[i]>. *)
+Theorem source_softmax_gradient_is_jvp (S D : list (list R)) (n k i j : nat) :
+  rect n k S -> rect n k D -> (i < n)%nat -> (j < k)%nat ->
+  exists fg, rdenote (env_sd S D n k) src_softmax_gradient = Some (VM n k fg) /\
+    is_derive (fun t => r_dot (r_softmax_row (upd (nth i S nil) j t)) (nth i D nil)) (ent S i j) (fg i j).
+Proof. exact (NpExprProofs.source_softmax_gradient_is_jvp S D n k i j). Qed.
+Print Assumptions source_softmax_gradient_is_jvp.
+
+(** CrossEntropy: loss_gradient(signal, labels)[i][j] / n = d loss(signal, labels) / d signal[i][j], where BOTH sides are
+    denotations of the source terms (the loss is re-evaluated on the perturbed signal), away from the clip at 1e-10. *)
+Theorem source_ce_loss_gradient_is_derivative (S : list (list R)) (labels : list nat) (n k i j : nat) :
+  rect n k S -> List.length labels = n -> labels_below k labels = true -> (i < n)%nat -> (j < k)%nat ->
+  rlit 1 (-10) < nth (nth i labels 0%nat) (r_softmax_row (nth i S nil)) 0 < 1 - rlit 1 (-10) ->
+  exists g L,
+    rdenote (env_sl S labels n k) src_ce_loss_gradient = Some (VM n k g) /\
+    (forall t, rdenote (env_sl (upd S i (upd (nth i S nil) j t)) labels n k) src_ce_loss = Some (VS (L t))) /\
+    is_derive L (ent S i j) (g i j / INR n).
+Proof. exact (NpExprProofs.source_ce_loss_gradient_is_derivative S labels n k i j). Qed.
+Print Assumptions source_ce_loss_gradient_is_derivative.
+
+(** BinaryCrossEntropy, one output channel, labels in {0,1}, away from the clip at 1e-15. *)
+Theorem source_bce_loss_gradient_single_is_derivative (S : list (list R)) (labels : list nat) (n i : nat) (x : R) :
+  rect n 1 S -> List.length labels = n -> (i < n)%nat -> nth i S nil = (x :: nil) ->
+  (nth i labels 0 = 0 \/ nth i labels 0 = 1)%nat ->
+  rlit 1 (-15) < r_sigmoid x < 1 - rlit 1 (-15) ->
+  exists g L,
+    rdenote (env_sl S labels n 1) src_bce_loss_gradient = Some (VM n 1 g) /\
+    (forall t, rdenote (env_sl (upd S i (t :: nil)) labels n 1) src_bce_loss = Some (VS (L t))) /\
+    is_derive L x (g i 0%nat / INR n).
+Proof. exact (NpExprProofs.source_bce_loss_gradient_single_is_derivative S labels n i x). Qed.
+Print Assumptions source_bce_loss_gradient_single_is_derivative.
+
+(** BinaryCrossEntropy, several output channels (one-hot form). *)
+Theorem source_bce_loss_gradient_multi_is_derivative (S : list (list R)) (labels : list nat) (n k i j : nat) :
+  rect n k S -> List.length labels = n -> labels_below k labels = true -> (2 <= k)%nat ->
+  (i < n)%nat -> (j < k)%nat ->
+  rlit 1 (-15) < r_sigmoid (ent S i j) < 1 - rlit 1 (-15) ->
+  exists g L,
+    rdenote (env_sl S labels n k) src_bce_loss_gradient = Some (VM n k g) /\
+    (forall t, rdenote (env_sl (upd S i (upd (nth i S nil) j t)) labels n k) src_bce_loss = Some (VS (L t))) /\
+    is_derive L (ent S i j) (g i j / INR n).
+Proof. exact (NpExprProofs.source_bce_loss_gradient_multi_is_derivative S labels n k i j). Qed.
+Print Assumptions source_bce_loss_gradient_multi_is_derivative.
+
+(** The hypotheses of the source theorems are met by a concrete 1 x 2 signal. *)
+Example c19_nonvacuous_source :
+  rect 1 2 ((0 :: 0 :: nil) :: nil) /\ labels_below 2 (0%nat :: nil) = true /\
+  rlit 1 (-10) < nth 0 (r_softmax_row (0 :: 0 :: nil)) 0 < 1 - rlit 1 (-10).
+Proof.
+  split. { split; [reflexivity|]. intros [|i] Hi; [reflexivity|lia]. }
+  split; [reflexivity|].
+  unfold rlit, r_softmax_row, g_softmax_row, g_sum. cbn [map fold_right nth].
+  rewrite exp_0. assert (H : 0 < powerRZ 10 (-10) < 1/4).
+  { cbn. change (Pos.to_nat 10) with 10%nat. cbn [pow]. split; [apply Rinv_0_lt_compat; lra|].
+    apply Rmult_lt_reg_l with (10*(10*(10*(10*(10*(10*(10*(10*(10*(10*1)))))))))); [lra|].
+    rewrite Rinv_r by lra. lra. }
+  lra.
+Qed.
 
 (* =========================================================================================== *)
 (** * Non-vacuity *)
